@@ -124,7 +124,137 @@ func runMigrateCase(ta *TestApp, seed uint64, idx int, rep *Report, profile stri
 		return f(), false
 	}
 	rep.Ops++
-	switch rng.Pick(50, 20, 5, 8, 8, 5, 4) {
+	switch rng.Pick(50, 20, 5, 8, 8, 5, 4, 9) {
+	case 7: // ---------------------------------------------------------------- v1.1.0: distributor state store 1 -> 2
+		clearStore(ctx, ta, distrtypes.StoreKey)
+		st := prefix.NewStore(ctx.KVStore(app.GetKey(distrtypes.StoreKey)), distrv1.RemainsKeyPrefix)
+		type oldSt struct {
+			key string
+			v   distrv1.State
+		}
+		accts := []distrv1.Account{{Id: "green_energy_booster_collector", Type: distrtypes.ModuleAccount}, {Id: "int0", Type: distrtypes.InternalAccount},
+			{Id: "c4e1w4u2hm6w0d3p0x7v7vj0v9m3n5f8a8q6s7k9xq", Type: distrtypes.BaseAccount}, {Id: "int0", Type: distrtypes.ModuleAccount},
+			{Id: "", Type: distrtypes.Main}, {Id: "x", Type: ""}}
+		n := 1 + rng.Intn(6)
+		var olds []oldSt
+		multi := rng.Chance(50)
+		for i := 0; i < n; i++ {
+			var v distrv1.State
+			switch rng.Pick(60, 25, 4, 11) {
+			case 0:
+				a := accts[rng.Intn(4)]
+				if rng.Chance(12) {
+					a = accts[4+rng.Intn(2)] // an account without id or without type: the new state is keyed like the burn state
+				}
+				v.Account = &a
+			case 1:
+				v.Burn = true
+				if rng.Bool() { // v1.0.1 stored the burn state with an (empty) account
+					v.Account = &distrv1.Account{}
+				}
+			case 2: // not a state the old chain wrote: neither burn nor an account
+			default:
+				a := accts[rng.Intn(4)]
+				v.Account, v.Burn = &a, true // burn with a named account: the account is dropped
+			}
+			for d := 0; d < 3; d++ {
+				if d == 0 || (multi && rng.Bool()) {
+					amt := sdk.NewDecFromBigIntWithPrec(rng.LogUniform(30), 18)
+					if rng.Chance(5) {
+						amt = amt.Neg()
+					}
+					v.CoinsStates = append(v.CoinsStates, sdk.DecCoin{Denom: denomNames[d], Amount: amt})
+				}
+			}
+			olds = append(olds, oldSt{fmt.Sprintf("old%02d", rng.Intn(90)), v})
+		}
+		sort.SliceStable(olds, func(i, j int) bool { return olds[i].key < olds[j].key })
+		var kept []oldSt // one state per old key (a later Set replaces an earlier one), in store order
+		for _, o := range olds {
+			if len(kept) > 0 && kept[len(kept)-1].key == o.key {
+				kept[len(kept)-1] = o
+			} else {
+				kept = append(kept, o)
+			}
+		}
+		keyStr := func(burn bool, a *distrv1.Account) string {
+			if !burn && a != nil && a.Id != "" && a.Type != "" {
+				return a.Type + "-" + a.Id
+			}
+			return distrtypes.BurnStateKey
+		}
+		keys := []string{distrtypes.BurnStateKey}
+		for _, o := range kept {
+			if o.v.Account != nil {
+				keys = append(keys, o.v.Account.Type+"-"+o.v.Account.Id)
+			}
+		}
+		rank := rankOf(keys)
+		var ts []string
+		totalBefore := sdk.DecCoins{}
+		clean := true
+		seenNew := map[string]bool{}
+		for _, o := range kept {
+			bz, err0 := app.AppCodec().Marshal(&o.v)
+			if err0 != nil {
+				panic(err0)
+			}
+			st.Set([]byte(o.key), bz)
+			acct := "None"
+			keyable := false
+			if o.v.Account != nil {
+				acct = fmt.Sprintf("(Some %d)", rank[o.v.Account.Type+"-"+o.v.Account.Id])
+				keyable = o.v.Account.Id != "" && o.v.Account.Type != ""
+			}
+			var cs []string
+			for _, c := range o.v.CoinsStates {
+				cs = append(cs, zPair(zI(int64(denomIdx(c.Denom))), zB(c.Amount.BigInt())))
+				if c.Amount.IsNegative() {
+					clean = false
+				}
+			}
+			if !o.v.Burn && o.v.Account == nil {
+				clean = false
+			}
+			nk := keyStr(o.v.Burn, o.v.Account)
+			if seenNew[nk] {
+				clean = false
+			}
+			seenNew[nk] = true
+			if clean {
+				totalBefore = totalBefore.Add(o.v.CoinsStates...)
+			}
+			ts = append(ts, fmt.Sprintf("{| vd_burn := %s; vd_acct := %s; vd_keyable := %s; vd_coins := %s |}", zBool(o.v.Burn), acct, zBool(keyable), zList(cs)))
+		}
+		err, panicked := guard(func() error { return distrv2.MigrateStore(ctx, app.GetKey(distrtypes.StoreKey), app.AppCodec()) })
+		if panicked {
+			rep.Panics = rep.Panics[:len(rep.Panics)-1] // judged by the comparison with the model below
+		}
+		body = fmt.Sprintf("GV1DStates %d [0; 1; 2] %s", rank[distrtypes.BurnStateKey], zList(ts))
+		switch {
+		case panicked:
+			expected = []*big.Int{bi(-1)}
+		case err != nil:
+			expected = ok(false)
+		default:
+			states := app.CfedistributorKeeper.GetAllStates(ctx)
+			expected = []*big.Int{bi(1), bi(int64(len(states)))}
+			totalAfter := sdk.DecCoins{}
+			for _, s := range states {
+				expected = append(expected, bi(int64(rank[s.GetStateKey()])), bi(b2i(s.Burn)), bi(b2i(s.Account != nil)))
+				for d := 0; d < 3; d++ {
+					expected = append(expected, s.Remains.AmountOf(denomNames[d]).BigInt())
+				}
+				totalAfter = totalAfter.Add(s.Remains...)
+			}
+			if clean {
+				// what the states hold together is what they held before (no two old states share a new key, nothing is negative)
+				rep.Eval("C16.v110_distributor_states_keep_their_remains", totalAfter.IsEqual(totalBefore) && len(states) == len(kept), idx, 0,
+					fmt.Sprintf("%d states holding %s before, %d states holding %s after", len(kept), totalBefore, len(states), totalAfter))
+			}
+		}
+		rep.NoteCase(body, err == nil)
+
 	case 0: // ---------------------------------------------------------------- minter 2 -> 3
 		c := genMinterCfg(rng, t0)
 		var lms []legacyGen
